@@ -21,6 +21,8 @@ import time
 import traceback
 import warnings
 warnings.filterwarnings('ignore')
+import logging
+logging.disable(logging.CRITICAL)
 
 VERIF = os.path.dirname(os.path.dirname(os.path.abspath(__file__)))
 REPO = os.environ.get('KAPTURE_REPO', '/repo')
